@@ -387,3 +387,81 @@ def declaration_blank_line_rule(crate, prop, rule="C05.R13"):
                    f, l)
     r.floor = 1
     return r
+
+
+def declaration_name_occurrence_rule(crate, prop, rule="C05.R17"):
+    """a block is `<doc comment>\n<declaration>`: the doc comment comes first and may contain the words `export type`,
+    so the name under which a block is sorted has to be read after the LAST occurrence of the declaration start"""
+    r = Result(rule, "where merge() (or a helper it reaches) cuts a declaration block at the declaration start `export type `, it takes the text after the last occurrence (split(..).last(), rsplit, rsplit_once, rfind): the doc comment precedes the declaration in the block and may itself contain `export type X`; a first-occurrence cut (split_once, splitn, find, split(..).nth(1)) sorts such a block under the name in its comment and the file depends on export order. Forms that do not cut at the declaration start (line scans, strip_prefix) are not read: undecided")
+    reach, _ = crate.reachable_bodies(["export::merge"], no_impls_of=("TS",))
+    LAST = r"str::<impl str>::(rsplit|rsplit_once|rfind|rsplitn|rsplit_terminator)(::<.*>)?$"
+    FIRST = r"str::<impl str>::(split_once|splitn|find)(::<.*>)?$"
+    SPLIT = r"str::<impl str>::split(::<.*>)?$"
+    n = 0
+    def is_decl_start(op):
+        c = op_const(op) or {}
+        return c.get("str") == "export type " or "DECLARATION_START" in (c.get("dbg") or "") or "DECLARATION_START" in json.dumps(c)
+    for b in crate.bodies:
+        if b.path not in reach or not b.path.startswith("export::"):
+            continue
+        for blk, t in b.calls():
+            if b.is_cleanup(blk) or not t.get("fn") or len(t["args"]) < 2:
+                continue
+            if not fn_matches(t, LAST, FIRST, SPLIT):
+                continue
+            pat = [a for a in t["args"][1:] if is_decl_start(a)]
+            if not pat:
+                # the pattern may have been copied into a local first
+                for a in t["args"][1:]:
+                    l = op_local(a)
+                    if l is None:
+                        continue
+                    for o in origins(b, l):
+                        if o["kind"] == "const" and is_decl_start({"k": "const", "c": o.get("c") or {}}):
+                            pat.append(a)
+            if not pat:
+                continue
+            f, l = M.user_span(t["span"])
+            short = t["fn"]["path"].split("::")[-1]
+            verdict = None
+            if fn_matches(t, LAST):
+                verdict = "last"
+            elif fn_matches(t, FIRST):
+                verdict = "first"
+            else:
+                # split(..): decided by what is taken from the iterator
+                dst = (t.get("dst") or {}).get("l")
+                takers = []
+                seen, work = set(), [dst]
+                while work:
+                    cur = work.pop()
+                    if cur is None or cur in seen:
+                        continue
+                    seen.add(cur)
+                    for b2, t2 in b.calls():
+                        if b.is_cleanup(b2) or not t2.get("args"):
+                            continue
+                        if op_local(t2["args"][0]) == cur and t2.get("fn"):
+                            takers.append(t2["fn"]["path"].split("::")[-1])
+                    for b2 in range(b.n):
+                        for st in b.stmts(b2):
+                            if st["k"] == "assign" and st["rv"]["k"] in ("use", "cast", "ref"):
+                                src = op_local(st["rv"]["op"]) if st["rv"]["k"] != "ref" else st["rv"]["pl"]["l"]
+                                if src == cur and not st["dst"]["p"]:
+                                    work.append(st["dst"]["l"])
+                if any(x in ("last", "next_back") for x in takers):
+                    verdict = "last"
+                elif any(x in ("nth", "skip") for x in takers):
+                    verdict = "first"
+                short += "(..)." + "/".join(takers[:3])
+            n += 1
+            r.inst(fn=b.path, where="%s:%s" % (f, l), cut=short, occurrence=verdict or "unread")
+            if verdict == "first":
+                r.fail(prop, "declaration-name-from-first-occurrence %s" % re.sub(r"::\{closure#\d+\}", "", b.path),
+                       "%s cuts the block at the FIRST `export type `: a doc comment `/** see export type Zeta */` above `export type Alpha` makes the block sort as Zeta, so exporting Alpha, Beta, Gamma and Gamma, Beta, Alpha give different files" % short, f, l)
+            elif verdict is None:
+                r.fail(prop, "anchor-missing occurrence taken from %s in %s" % (short, b.path), "what is taken from the pieces could not be read", f, l)
+    if n == 0:
+        r.fail(prop, "anchor-missing cut at the declaration start", "merge() and what it reaches contain no split/find on the declaration start: the way the name of a block is read is not one this rule knows")
+    r.floor = 2
+    return r
